@@ -1086,6 +1086,25 @@ impl BackupManager {
         let mut deleted = Vec::new();
         let min_age_seconds = policy.min_age_days * day;
 
+        // An incremental can only be restored together with its ancestors: whatever stays
+        // (bucket winners and backups younger than the minimum age) keeps its parent chain.
+        let parent_of: std::collections::HashMap<Uuid, Option<Uuid>> =
+            backups.iter().map(|b| (b.id, b.parent_id)).collect();
+        let mut pending: Vec<Uuid> = backups
+            .iter()
+            .filter(|b| {
+                to_keep.contains(&b.id) || now.saturating_sub(b.timestamp) < min_age_seconds
+            })
+            .map(|b| b.id)
+            .collect();
+        while let Some(id) = pending.pop() {
+            if let Some(Some(parent_id)) = parent_of.get(&id) {
+                if to_keep.insert(*parent_id) {
+                    pending.push(*parent_id);
+                }
+            }
+        }
+
         for backup in &backups {
             if !to_keep.contains(&backup.id) {
                 let age = now.saturating_sub(backup.timestamp);
